@@ -222,7 +222,14 @@ class ScriptedCriteria:
         return b
 
 
-def make_engine(ctx, initial_level, n0, level_max, bound, nb_of_processes=1, offset=0):
+class ScriptedControlUnderlying(ScriptedUnderlying):
+    """the control is written on the product's own (scripted) underlying: its value is the payoff underlying handed over"""
+
+    def imply_from_payoff_underlying(self, payoff_underlying_type):
+        return lambda times, path, jump_path, payoff_underlying: payoff_underlying
+
+
+def make_engine(ctx, initial_level, n0, level_max, bound, nb_of_processes=1, offset=0, control_variates=None):
     reg = Registry(ctx)
     df = ctx.real("df", 0)
     notional = ctx.real("notional")
@@ -230,7 +237,7 @@ def make_engine(ctx, initial_level, n0, level_max, bound, nb_of_processes=1, off
     cc = CR.ConvergenceCriteria(criteria=crit.criteria, compute_mc_paths=crit.compute_mc_paths)
     cfg = CFG.ConfigurationMultiLevel(convergence_rates=CFG.ConvergenceRates(alpha=1.0, beta=1.0, gamma=1.0), convergence_criteria=cc,
                                       initial_level=initial_level, maximum_level=level_max, initial_mc_paths=n0, seed=None,
-                                      nb_of_processes=nb_of_processes)
+                                      nb_of_processes=nb_of_processes, control_variates=control_variates)
     cfg.initialisation_seed = lambda multiprocessing=False: None  # seeding is C08's subject
     eng = ME.Engine(cfg, ScriptedCoupling(reg, df))
     prod = ScriptedProduct(notional)
